@@ -40,7 +40,7 @@ def check(run):
         if cands:
             # native replay against a build of the replay crate with that backend feature
             insphere.confirm_and_report(run, 'C11', cands, 'C11[%s]' % b, backend=b)
-    structural_side_check(run)
+    run.guard(structural_side_check)
     run.assume('each big-integer crate implements Z exactly (their arithmetic is not encoded)')
     run.assume('rug backend not buildable in this sandbox: outside the claim')
     return run.finish(LEVEL, EXPLANATION, trusted=['rustc -Zunpretty=mir', 'z3 5.1.0 / 4.8.12, cvc5 1.0.3', 'per-backend model table of mirsym'])
